@@ -68,10 +68,12 @@ pub struct ScriptWriter {
     pended: bool,
     pub flushes: usize,
     pub closes: usize,
+    /// run once, when the first poll_write call arrives (before it is answered)
+    pub on_first_write: Option<Box<dyn FnOnce()>>,
 }
 impl ScriptWriter {
     pub fn new(sched: Vec<Wop>, budget: Option<u64>, flush_ok: bool, pend: bool) -> Self {
-        Self { out: Vec::new(), sched: sched.into(), budget, flush_ok, pend, pended: false, flushes: 0, closes: 0 }
+        Self { out: Vec::new(), sched: sched.into(), budget, flush_ok, pend, pended: false, flushes: 0, closes: 0, on_first_write: None }
     }
 }
 impl AsyncWrite for ScriptWriter {
@@ -82,6 +84,9 @@ impl AsyncWrite for ScriptWriter {
             return Poll::Pending;
         }
         self.pended = false;
+        if let Some(f) = self.on_first_write.take() {
+            f();
+        }
         if self.budget == Some(0) {
             return Poll::Ready(Err(Error::new(ErrorKind::BrokenPipe, "scripted budget exhausted")));
         }
